@@ -101,6 +101,11 @@ def run(ck: Checker, prog: Program, tier: str):
         n_eff_sites += len(s.effects)
 
     ck.guard(_r2c, ck, prog)
+    # "the same settings" must mean the same thing in every call: no mutable default shared between settings objects, no cached
+    # serialisation, every constructor argument delivered (rules of C15)
+    from . import c15
+    with ck.borrow(c15, "C09.R2a+"):
+        ck.guard(c15.run, ck, prog, tier)
     ck.extra["entry_points"] = todo
     ck.extra["calls_resolved"] = eng.calls_resolved
     ck.extra["calls_through_unknown_values"] = eng.unresolved[:20]
